@@ -216,7 +216,7 @@ func Enum(c explore.Chooser) *prog.Program {
 	rootPath := prog.Base() + "/enums"
 	subPath := rootPath + "/sub"
 
-	loc := s.Pick("T1.loc", "analysed-file", "other-file", "sub-package", "both-packages", "module-root-package", "sub-package-constants-only-in-root", "foreign-constant-and-homonym")
+	loc := s.Pick("T1.loc", "analysed-file", "other-file", "sub-package", "both-packages", "module-root-package", "sub-package-constants-only-in-root", "foreign-constant-and-homonym", "sub-package-diamond")
 	t1 := enumType(s, "T1", "Level", "Lv", "int")
 	second := s.Pick("T2", "absent", "present", "present-in-sub", "present-in-same-named-package")
 	t2 := ""
@@ -234,6 +234,7 @@ func Enum(c explore.Chooser) *prog.Program {
 
 	t1ref := "Level"
 	needSub := false
+	needMid := false
 	modRoot := ""
 	switch loc {
 	case "analysed-file":
@@ -244,6 +245,12 @@ func Enum(c explore.Chooser) *prog.Program {
 		sub.WriteString(t1)
 		t1ref = "sub.Level"
 		needSub = true
+	case "sub-package-diamond":
+		// the package of the enum is imported twice: directly and through the package mid
+		sub.WriteString(t1)
+		t1ref = "sub.Level"
+		needSub = true
+		needMid = true
 	case "sub-package-constants-only-in-root":
 		// the type has no constant in its own package; the importing package declares one
 		sub.WriteString("type Level int\n\n")
@@ -320,6 +327,9 @@ func Enum(c explore.Chooser) *prog.Program {
 	if needTwin {
 		addRef("F3", "sub.Tag")
 	}
+	if needMid {
+		fields = append(fields, "\tVia mid.M")
+	}
 	fields = append(fields, "\tN int")
 
 	var hdr strings.Builder
@@ -330,6 +340,9 @@ func Enum(c explore.Chooser) *prog.Program {
 	}
 	if needSub {
 		imps = append(imps, fmt.Sprintf("\t%q", subPath))
+	}
+	if needMid {
+		imps = append(imps, fmt.Sprintf("\t%q", rootPath+"/mid"))
 	}
 	if needTwin {
 		imps = append(imps, fmt.Sprintf("\ttwin %q", rootPath+"/twin/sub"))
@@ -345,6 +358,9 @@ func Enum(c explore.Chooser) *prog.Program {
 	}
 	if needSub {
 		p.Pkgs = append(p.Pkgs, &prog.Pkg{Path: subPath, Name: "sub", Files: []prog.File{{Name: "sub.go", Src: sub.String()}}})
+	}
+	if needMid {
+		p.Pkgs = append(p.Pkgs, &prog.Pkg{Path: rootPath + "/mid", Name: "mid", Files: []prog.File{{Name: "mid.go", Src: "package mid\n\nimport \"" + subPath + "\"\n\ntype M struct {\n\tL sub.Level\n}\n"}}})
 	}
 	if needTwin {
 		p.Pkgs = append(p.Pkgs, &prog.Pkg{Path: rootPath + "/twin/sub", Name: "sub", Files: []prog.File{{Name: "sub.go", Src: "package sub\n\n" + t2}}})
